@@ -28,6 +28,9 @@ RULE += (
          "Also: multi-line sources that do not compile (C06's invalid "
          'families at top level and inside blocks): exception class, '
          'message and line number agree in the three spellings. ')
+RULE += (
+         'Templates of a non-default encoding with bytes of that '
+         'encoding in 13 contexts x 4 insertion forms. ')
 ASSUMPTIONS = [
     'whether a name is written x or name=x (an expression "e" or expr="e") '
     'is recorded in the compiled attribute dictionary, so it is pinned per '
